@@ -67,7 +67,8 @@ class Lex:
         for name, token_type in TokenTypes.__members__.items()}
     for _internal in (
             'compare', 'eof', 'error', 'literal_string', 'mark', 'name',
-            'number', 'register', 'syntax_error', 'time_pattern', 'unknown'):
+            'null', 'number', 'register', 'syntax_error', 'time_pattern',
+            'unknown'):
         del _KEYWORDS[_internal]
     del _internal
 
